@@ -188,8 +188,21 @@ func init() {
 		if runBuilderCases(env, true) {
 			return nil
 		}
+		var rw wsListenerCase
+		if ok, _ := env.ReplayDesc(&rw); ok && rw.WsListener {
+			c, err := runWsListenerCase(rw.Shape)
+			if err != nil {
+				return err
+			}
+			env.Add("(KWsL "+c.coq()+")", c)
+			return nil
+		}
 		if env.Replay == "" {
-			defer func() { env.Header = hsHeader + "Hs.Builder Corr.Builder Corr.C10."; runBuilderCases(env, false) }()
+			defer func() {
+				env.Header = hsHeader + "Hs.Builder Corr.Builder Corr.C10."
+				runBuilderCases(env, false)
+				_ = addWsListenerCases(env)
+			}()
 		}
 		o := enumOpts{confs: confsByName("tls-only", "tls-twice", "tls-only-no-config", "tls-only-gzip-only", "tls-first", "tls-handshake-fails"), oracles: serverOracles[:env.Pick(2, 3)], alphabet: serverAlphabet, depth: env.Pick(3, 4)}
 		return runServerProp(env, "C10", o, "Configurations here exclude 'none' (plus two controls that include it). Non-trivial: the server got past the first client envelope.", func(c *SCase) bool { return sentCount(c) >= 1 && len(c.Script) >= 2 })
